@@ -151,6 +151,28 @@ CATS = {
 }
 
 
+_UNI_CATS: dict = {}
+
+
+def _unicode_category(base: str):
+    """The code points a str pattern's \\d / \\s / \\w matches without re.ASCII, as ranges - read off the interpreter's own
+    character tables (sre uses str.isdecimal / str.isspace / str.isalnum-or-underscore), computed once per run."""
+    if base not in _UNI_CATS:
+        pred = {"CATEGORY_DIGIT": str.isdecimal, "CATEGORY_SPACE": str.isspace, "CATEGORY_WORD": lambda ch: ch.isalnum() or ch == "_"}[base]
+        out, start = [], None
+        for cp in range(0x110000):
+            if pred(chr(cp)):
+                if start is None:
+                    start = cp
+            elif start is not None:
+                out.append((start, cp - 1))
+                start = None
+        if start is not None:
+            out.append((start, 0x10FFFF))
+        _UNI_CATS[base] = out
+    return _UNI_CATS[base]
+
+
 def build(pattern, flags: int = 0, api: str = "match", lookaround: str = "error", items_override=None) -> NFA:
     """api: match | fullmatch | search/sub (search semantics only matter for language questions).
     lookaround: "error" - a look-ahead / look-behind stops the analysis (language questions cannot ignore it);
@@ -285,9 +307,7 @@ def _charset_of_in(nfa: NFA, av, ascii_only: bool) -> CharSet:
             base = name.replace("CATEGORY_NOT_", "CATEGORY_").replace("CATEGORY_UNI_", "CATEGORY_").replace("CATEGORY_LOC_", "CATEGORY_")
             if base not in CATS:
                 raise AnalysisError(f"regex category {name} not modelled")
-            if not ascii_only:
-                raise AnalysisError(f"Unicode category {name} in a str pattern is not modelled")
-            c = CharSet(CATS[base])
+            c = CharSet(CATS[base]) if ascii_only else CharSet(_unicode_category(base)).intersect(CharSet([(0, nfa.top)]))
             if "NOT_" in name:
                 c = c.complement(nfa.top)
             cs = cs.union(c)
